@@ -378,17 +378,18 @@ Example C14_ex_never_raised :
   demo_run (Some 60) = (fst (demo_run None), set_stop (Some 60) (snd (demo_run None))).
 Proof. vm_compute. reflexivity. Qed.
 
-(* all 49 stop points at once: every stopped trace is a prefix of the full one *)
+(* all 49 stop points at once (exhaustive for this program): stopped at yield k, exactly
+   k+1 yields, and the stopped trace is the corresponding prefix of the full one *)
 Example C14_ex_every_k :
-  forallb (fun k =>
-             let sk := snd (demo_run (Some k)) in
-             let sI := snd (demo_run None) in
-             Nat.eqb (st_yields sk) (S k) &&
-             Nat.eqb (List.length (st_trace sk))
-                     (List.length (firstn (List.length (st_trace sk)) (rev (st_trace sI)))) &&
-             match fst (demo_run (Some k)) with OErr EStopped => true | _ => false end)
-          (seq 0 49) = true.
-Proof. vm_compute. reflexivity. Qed.
+  Forall (fun k =>
+            let sk := snd (demo_run (Some k)) in
+            let sI := snd (demo_run None) in
+            fst (demo_run (Some k)) = OErr EStopped /\ st_yields sk = S k /\
+            rev (st_trace sk) = firstn (List.length (st_trace sk)) (rev (st_trace sI)))
+         (seq 0 49).
+Proof.
+  cbv [seq]. repeat (apply Forall_cons; [vm_compute; repeat split; reflexivity|]). apply Forall_nil.
+Qed.
 
 (* the summary of the tests run so far may follow the prefix:  test true / print 1,
    stopped at the last yield: the prefix is empty, the tail is the summary *)
